@@ -30,17 +30,18 @@
 EXTENDS Naturals, FiniteSets, Sequences, TLC
 
 CONSTANTS PSFamily,    \* initial peerstore contents of the remote peer (sets of pP, pV, pR)
-          MsgFamily,   \* address sets a CONNECT message of the remote may carry (mP, mV, mR, mG)
+          MsgFamily,   \* address sets a CONNECT message of the remote may carry (mP, mV, mR, mS, mG)
           OwnFamily,   \* values of listenAddrs() (oP, oR)
           ConnFamily,  \* initial connection tables (subsets of {D, L, U})
           EnvBudget,   \* spontaneous connection events per behaviour
           MaxRetries   \* 3 in holepuncher.go
 
 \* address tokens: p* peerstore, m* carried in the remote's CONNECT, o* our own
-\* xP public direct, xV private direct, xR circuit address (on a public relay), mG bytes that are no multiaddr
-Relay   == {"pR", "mR", "oR"}
+\* xP public direct, xV private direct, xR circuit address (on a public relay), mS circuit address on a relay
+\* with a private IP, mG bytes that are no multiaddr
+Relay   == {"pR", "mR", "mS", "oR"}
 Garbage == {"mG"}
-Public  == {"pP", "mP", "oP"} \cup Relay      \* manet.IsPublicAddr looks at the IP component only
+Public  == {"pP", "mP", "oP", "pR", "mR", "oR"}   \* manet.IsPublicAddr looks at the IP component only
 \* removeRelayAddrs(addrsFromBytes(.)), and also what Swarm.addrsForDial keeps under force-direct
 Dialable(S) == (S \ Relay) \ Garbage
 ConnKinds == {"D", "L", "U"}
